@@ -166,7 +166,9 @@ class ExternalVariableCollector(NodeVisitor):
         else:
             if node.lineno in self.comments:
                 self.vardoc[node.id] = self.comments[node.lineno]
-            self.provenance[node.id] = "body"
+            if self.provenance.get(node.id) != "argument":
+                # A parameter that is assigned again remains a parameter
+                self.provenance[node.id] = "body"
             self.assigned.add(node.id)
 
     def visit_ExceptHandler(self, node):
